@@ -183,8 +183,8 @@ func (e *env) secExact() {
 		base := s.validTuple(rng, "random", "random", "random")
 		s.verifyScalars(s.vk, "valid/nth-use", base.c, base.h, base.v, base.z)
 		s.verifyScalars(s.vk, "altered/nth-use", base.c, base.h, e.f.add(base.v, one), base.z)
-		c.AddExtra(N+".vk-uses", int64(s.uses))
-		c.Extra(fmt.Sprintf("%s.exact.%s.uses-of-one-key", N, cls), s.uses)
+		noteStat("verifications_through_shared_key_objects", N, float64(s.uses))
+		noteStat("verifications_through_one_key_object", N+"/exact/tau:"+cls, float64(s.uses))
 	}
 }
 
@@ -540,7 +540,7 @@ func (e *env) secBatch() {
 				}
 			}
 		}
-		c.AddExtra(N+".vk-uses", int64(s.uses))
+		noteStat("verifications_through_shared_key_objects", N, float64(s.uses))
 	}
 }
 
@@ -684,6 +684,6 @@ func (e *env) secMulti() {
 				}
 			}
 		}
-		c.AddExtra(N+".vk-uses", int64(s.uses))
+		noteStat("verifications_through_shared_key_objects", N, float64(s.uses))
 	}
 }
